@@ -10,6 +10,7 @@ import Ufw.Tie.Regp
 #print axioms Ufw.Props.C07.crc_two_bit
 #print axioms Ufw.Props.C07.header_two_bit_rejected
 #print axioms Ufw.Props.C07.payload_two_bit_rejected
+#print axioms Ufw.Props.C07.word0_single_bit_rejected
 #print axioms Ufw.Props.C07.burst_across_size_and_checksum_accepted
 #print axioms Ufw.Tie.Regp.const_header_sizes
 #print axioms Ufw.Tie.Regp.const_options
